@@ -173,13 +173,16 @@ def gen_cases(tier):
             if i != j:
                 for m in (mode, "sql"):
                     cases.append({"two": [i, j], "mode": m})
+                # the same two tables without ';' terminators (the first statement is ended by the start of the second)
+                cases.append({"two": [i, j], "mode": mode, "nosemi": True})
     return cases
 
 
 def build(case):
     if "two" in case:
         i, j = case["two"]
-        return BODIES["plain"] + " " + CAT[i][1] + ";\n" + BODY2 + " " + CAT[j][1] + ";"
+        end = "" if case.get("nosemi") else ";"
+        return BODIES["plain"] + " " + CAT[i][1] + end + "\n" + BODY2 + " " + CAT[j][1] + end
     return BODIES[case["body"]] + " " + " ".join(CAT[i][1] for i in case["clauses"]) + ";"
 
 
